@@ -128,12 +128,17 @@ package internal
 //@ -- NewXMLRequest marshals v with encoding/xml into the request body: assumed faithful (T-xml); the ghost
 //@ -- variables sent* record what was handed over
 //@ func internal.(*Client).NewXMLRequest(c, method, path, v) (req, err)
-//@   trusted T-xml
-//@   requires R1: c != nil
+//@   requires R1: c != nil && c.endpoint != nil && hasPrefix(c.endpoint.Path, "/")
 //@   allocates
-//@   assigns ghost:sentCount, ghost:sentMethod, ghost:sentPath, ghost:sentBody
+//@   assigns ghost:nrCalls, ghost:nrMethod, ghost:nrURL, ghost:nrReq, ghost:hv, ghost:encLast
+//@   ghostset sentBody : v
+//@   ghostset sentMethod : method
+//@   ghostset sentPath : path
+//@   ghostset sentCount : sentCount + 1
 //@   ensures X1: sentCount == old(sentCount) + 1 && sentMethod == method && sentPath == path && sentBody == v
 //@   ensures X2: err == nil ==> req != nil && fresh(req) && req.Header != nil && hget(hv, req.Header, "Depth") == ""
+//@   -- what is recorded as sent is what the XML encoder was handed, for the request that was built for (method, path)
+//@   ensures X3: err == nil ==> encLast == v && nrMethod == method && nrReq == req && (!hasPrefix(resolved(c, path), "//") ==> urlParseOk(nrURL) && urlParsePath(nrURL) == resolved(c, path))
 //@ -- (DoMultiStatus: see the C14 contracts below)
 
 //@ -- per-resource outcome inside a multi-status (C10, C11)
@@ -330,7 +335,7 @@ package internal
 
 //@ -- C14: HTTP status to error. A call fails exactly when the transport fails or the status is not 2xx; the error
 //@ -- then is an *HTTPError with that status which wraps the DAV:error element of an XML body.
-//@ spec clientOK(c *Client) bool = c != nil && c.http != nil && c.endpoint != nil
+//@ spec clientOK(c *Client) bool = c != nil && c.http != nil && c.endpoint != nil && hasPrefix(c.endpoint.Path, "/")
 //@ spec xmlResp(r *http.Response) bool = mimeType(hget(hv, r.Header, "Content-Type")) == "application/xml" || mimeType(hget(hv, r.Header, "Content-Type")) == "text/xml"
 //@ func internal.(*Client).Do(c, req) (resp, err)
 //@   requires R1: clientOK(c) && req != nil
@@ -369,7 +374,7 @@ package internal
 //@ func internal.(*Client).PropFind(c, ctx, path, depth, propfind) (ms, err)
 //@   requires R1: clientOK(c) && (depth == DepthZero || depth == DepthOne || depth == DepthInfinity)
 //@   allocates
-//@   assigns ghost:data, ghost:doCalls, ghost:lastReq, ghost:sentCount, ghost:sentMethod, ghost:sentPath, ghost:sentBody, ghost:hv
+//@   assigns ghost:data, ghost:doCalls, ghost:lastReq, ghost:sentCount, ghost:sentMethod, ghost:sentPath, ghost:sentBody, ghost:hv, ghost:encLast, ghost:nrCalls, ghost:nrMethod, ghost:nrURL, ghost:nrReq
 //@   ensures P1: doCalls == old(doCalls) || doCalls == old(doCalls) + 1
 //@   ensures P2: doCalls == old(doCalls) ==> ms == nil && err != nil
 //@   ensures P3: doCalls == old(doCalls) + 1 ==> msOutcome(c, ms, err) && sentMethod == "PROPFIND" && sentPath == path && dynPtr(sentBody, "*PropFind") == propfind
@@ -377,7 +382,7 @@ package internal
 //@ func internal.(*Client).PropFindFlat(c, ctx, path, propfind) (resp, err)
 //@   requires R1: clientOK(c)
 //@   allocates
-//@   assigns ghost:data, ghost:doCalls, ghost:lastReq, ghost:sentCount, ghost:sentMethod, ghost:sentPath, ghost:sentBody, ghost:hv
+//@   assigns ghost:data, ghost:doCalls, ghost:lastReq, ghost:sentCount, ghost:sentMethod, ghost:sentPath, ghost:sentBody, ghost:hv, ghost:encLast, ghost:nrCalls, ghost:nrMethod, ghost:nrURL, ghost:nrReq
 //@   ensures F1: doCalls == old(doCalls) ==> resp == nil && err != nil
 //@   ensures F2: doCalls == old(doCalls) + 1 && (lastErr(c) != nil || lastStatus(c) != 207) ==> resp == nil && err != nil && (lastErr(c) == nil && lastStatus(c) / 100 != 2 ==> httpCode(err) == lastStatus(c))
 //@   ensures F3: err == nil ==> resp != nil && doCalls == old(doCalls) + 1 && lastErr(c) == nil && lastStatus(c) == 207
@@ -387,7 +392,7 @@ package internal
 //@ func internal.(*Client).SyncCollection(c, ctx, path, syncToken, level, limit, prop) (ms, err)
 //@   requires R1: clientOK(c) && (level == DepthZero || level == DepthOne || level == DepthInfinity)
 //@   allocates
-//@   assigns ghost:data, ghost:doCalls, ghost:lastReq, ghost:sentCount, ghost:sentMethod, ghost:sentPath, ghost:sentBody, ghost:hv
+//@   assigns ghost:data, ghost:doCalls, ghost:lastReq, ghost:sentCount, ghost:sentMethod, ghost:sentPath, ghost:sentBody, ghost:hv, ghost:encLast, ghost:nrCalls, ghost:nrMethod, ghost:nrURL, ghost:nrReq
 //@   ensures S1: doCalls == old(doCalls) || doCalls == old(doCalls) + 1
 //@   ensures S2: doCalls == old(doCalls) ==> ms == nil && err != nil
 //@   ensures S3: doCalls == old(doCalls) + 1 ==> msOutcome(c, ms, err) && sentMethod == "REPORT" && sentPath == path
